@@ -61,6 +61,9 @@ func Gen(r *rng.R, pf Profile) *Spec {
 			}
 		}
 		usedNames[t.Pkg+":"+t.Name] = true
+		if r.Chance(1, 4) {
+			t.Shape = rng.Pick(r, []string{"and", "nosete"})
+		}
 		// dependencies on earlier targets
 		depNames := map[string]bool{}
 		for j := 0; j < i; j++ {
